@@ -46,6 +46,9 @@ def build_alphabet(proto):
         ('new-alice-pw', b'alice', b'pw-new'),
         ('bobs-pw-for-alice', b'alice', b'pw2'),
         ('case-user', b'ALICE', b'pw'),
+        # an account without a password must never verify, whatever the hash
+        ('nopw-empty', b'nopw', b''),
+        ('nopw-none', b'nopw', b'None'),
     ]
     if proto == 'imap':
         for n, u, p in creds:
@@ -81,6 +84,7 @@ def build_alphabet(proto):
          b'alice'),
         ('new-alice-pw', plain(b'', b'alice', b'pw-new'), b'alice', b'pw-new',
          b'alice'),
+        ('nopw-empty', plain(b'', b'nopw', b''), b'nopw', b'', b'nopw'),
     ]
     for n, resp, authc, pw, authz in sasl:
         if proto == 'imap':
@@ -107,6 +111,14 @@ def build_alphabet(proto):
         E('AUTH-BOGUS', kind='sasl', line=b'AUTHENTICATE BOGUS',
           authc=None, pw=None, authz=None)
         E('STARTTLS', kind='starttls', line=b'STARTTLS')
+        # challenge-response (offered only in the 'cram' configuration; the
+        # digest is computed from the server's challenge)
+        for n, u, p in (('good-alice', b'alice', b'pw'),
+                        ('wrongpw', b'alice', b'nope'),
+                        ('nopw-empty', b'nopw', b''),
+                        ('unknown-user', b'mallory', b'pw')):
+            E('AUTH-CRAM-' + n, kind='cram', line=b'AUTHENTICATE CRAM-MD5',
+              authc=u, pw=p, authz=u)
     else:
         E('AUTH-BOGUS', kind='sasl', line=b'AUTHENTICATE "BOGUS"',
           authc=None, pw=None, authz=None)
@@ -118,7 +130,8 @@ def build_alphabet(proto):
 
 
 class AuthModel:
-    def __init__(self, tls_offered, local) -> None:
+    def __init__(self, tls_offered, local, variant='stock') -> None:
+        self.variant = variant
         self.pw = {u: p[0].encode() for u, p in USERS.items()}
         self.roles = {u: set(p[1]) for u, p in USERS.items()}
         self.tls_offered = tls_offered
@@ -136,7 +149,13 @@ class AuthModel:
 
     @property
     def plain_offered(self):
+        if self.variant == 'cram':
+            return False       # only CRAM-MD5 is configured
         return (not self.tls_offered) or self.local or self.tls_done
+
+    @property
+    def cram_offered(self):
+        return self.variant == 'cram'
 
     def verify(self, authc, pw):
         if authc is None:
@@ -152,7 +171,10 @@ class AuthModel:
         unauthenticated).  'only when': refusing is always admissible."""
         if not self.verify(ev['authc'], ev['pw']):
             return {None}
-        if not self.plain_offered:
+        if ev['kind'] == 'cram':
+            if not self.cram_offered:
+                return {None}
+        elif not self.plain_offered:
             return {None}
         authc = ev['authc'].decode()
         authz = ev['authz'].decode() if ev['authz'] else authc
@@ -172,11 +194,16 @@ class AuthModel:
 class Model:
     name = 'c09'
 
-    def __init__(self, proto, tls, local) -> None:
+    def __init__(self, proto, tls, local, variant='stock') -> None:
         self.proto = proto
         self.tls = tls
         self.local = local
-        self.params = {'proto': proto, 'tls': tls, 'local': local}
+        # stock: default mechanisms, salted hash; cleartext: default
+        # mechanisms, passwords stored in clear (what challenge-response
+        # mechanisms need); cram: clear passwords, CRAM-MD5 the only mechanism
+        self.variant = variant
+        self.params = {'proto': proto, 'tls': tls, 'local': local,
+                       'variant': variant}
         self._alpha = build_alphabet(proto)
 
     def alphabet(self):
@@ -186,9 +213,23 @@ class Model:
         return '127.0.0.1' if self.local else '1.2.3.4'
 
     def new(self):
-        w = DictWorld(users=USERS, tls_enabled=self.tls)
+        if self.variant == 'stock':
+            w = DictWorld(users=USERS, tls_enabled=self.tls)
+        else:
+            from pysasl.hashing import Cleartext
+            w = DictWorld(users=USERS, tls_enabled=self.tls,
+                          hash_context=Cleartext())
+        if self.variant == 'cram':
+            from pysasl import SASLAuth
+            cfg = w.config
+            cfg.__class__ = type('CramOnly', (cfg.__class__,), {
+                'tls_auth': property(
+                    lambda self_: SASLAuth.named([b'CRAM-MD5']))})
+        from pymap.user import UserMetadata
+        w.backend.login.users_dict['nopw'] = UserMetadata(
+            w.config, 'nopw', password=None, roles=frozenset())
         ctx = Ctx(w)
-        ctx.extra['m'] = AuthModel(self.tls, self.local)
+        ctx.extra['m'] = AuthModel(self.tls, self.local, self.variant)
         # markers: every user's store gets a mailbox / script named after it
         from pymap.backend.dict.mailbox import MailboxSet
         from pymap.backend.dict.filter import FilterSet
@@ -285,7 +326,8 @@ class Model:
             ('/tls-offered' if self.tls else '') + \
             ('/local' if self.local else '/remote') + \
             ('/tlsdone' if m.tls_done else '') + \
-            ('/authed' if m.identity else '')
+            ('/authed' if m.identity else '') + \
+            ('' if self.variant == 'stock' else '/' + self.variant)
         ctx.extra['last'] = (e['name'], None)
         if kind == 'reconnect':
             c = ctx.extra['c']
@@ -302,7 +344,7 @@ class Model:
             from pymap.user import UserMetadata  # noqa: F401
             login = ctx.world.backend.login
             cur = login.users_dict['alice']
-            new_hash = _hash_context().hash(
+            new_hash = ctx.world.config.hash_context.hash(
                 ctx.world.config.password_prep('pw-new'))
             login.users_dict['alice'] = dataclasses.replace(
                 cur, password=new_hash)
@@ -315,7 +357,19 @@ class Model:
             return out
         before = m.identity
         if self.proto == 'imap':
-            st = ctx.do(c, e['line'], e.get('conts', ()))
+            if kind == 'cram':
+                st = ctx.do(c, e['line'])
+                ch = [r for r in st.responses if r.kind == 'cont']
+                if st.tagged is None and ch:
+                    import hmac
+                    try:
+                        chal = base64.b64decode(ch[-1].text or b'')
+                    except Exception:       # noqa: BLE001
+                        chal = b''
+                    dig = hmac.new(e['pw'], chal, 'md5').hexdigest().encode()
+                    st = ctx.more(c, b64(e['authc'] + b' ' + dig) + b'\r\n')
+            else:
+                st = ctx.do(c, e['line'], e.get('conts', ()))
             for h in ctx.harness_errors:
                 raise RuntimeError(h)
             cond = st.cond
@@ -353,7 +407,7 @@ class Model:
                            f'{before} -> {now} via {e["name"]}'))
                 m.identity = now
             return out
-        adm = m.admissible(e)
+        adm = m.admissible(dict(e, kind=kind))
         if kind == 'login' and not m.plain_offered:
             adm = {None}
         if kind == 'login' and not m.plain_offered and cond == 'OK':
@@ -404,7 +458,9 @@ class Model:
 
 CONFIGS = [('imap', False, False), ('imap', True, False), ('imap', True, True),
            ('sieve', False, False), ('sieve', True, False),
-           ('imap', False, True)]
+           ('imap', False, True),
+           ('imap', False, False, 'cleartext'), ('imap', False, False, 'cram'),
+           ('imap', True, False, 'cram'), ('sieve', False, False, 'cleartext')]
 
 
 def run(*, tier, seed, jobs, progress, opts):
@@ -414,15 +470,17 @@ def run(*, tier, seed, jobs, progress, opts):
     cov = {'configs': [], 'states': 0, 'transitions': 0,
            'traces_validated_against_impl': 0, 'samples': []}
     auth_ok_states = 0
-    for proto, tls, local in CONFIGS:
-        m = Model(proto, tls, local)
+    for cfg in CONFIGS:
+        proto, tls, local = cfg[:3]
+        variant = cfg[3] if len(cfg) > 3 else 'stock'
+        m = Model(proto, tls, local, variant)
         res = bfs(m, depth, jobs=jobs, seed=seed, progress=progress)
         if res.errors:
             print(res.errors[0])
             raise RuntimeError('harness error during exploration')
         c = res.coverage(m)
         cov['configs'].append({'proto': proto, 'tls_offered': tls,
-                               'local_peer': local,
+                               'local_peer': local, 'variant': variant,
                                'alphabet_size': len(m.alphabet()),
                                **{k: c[k] for k in (
                                    'states', 'transitions', 'depth_completed',
@@ -447,7 +505,7 @@ def run(*, tier, seed, jobs, progress, opts):
 def replay(rec):
     r = rec['replay']
     p = r['params']
-    m = Model(p['proto'], p['tls'], p['local'])
+    m = Model(p['proto'], p['tls'], p['local'], p.get('variant', 'stock'))
     viols = run_history(m, r['history'])
     for v in viols:
         print('VIOLATION-REPLAYED', v['rule'], v['site'], v['msg'])
